@@ -1,5 +1,6 @@
 import TrionModel.Lemmas.AsmFile
 import TrionModel.Lemmas.AsmEnc
+import TrionModel.Lemmas.AsmLoud
 /-!
 # C06 — every input yields success or diagnostics, never a crash: the whole pipeline
 
@@ -83,52 +84,51 @@ includes, both task loops, `close_segment`, `finalize` — never reaches a panic
 theorem run_no_panic (fs : Bytes → Option Bytes) (main : Bytes) : run fs main ≠ .panic :=
   runWith_no_panic encoder encoder_len fs main
 
-/-
-FULL-STRENGTH STATEMENT of the outcome shape (kept visible):
-    theorem run_outcome : run fs main = .done o →
-      (o.success = true → o.diags = [] ∧ o.assembleOk = true) ∧
-      (o.success = false → o.diags ≠ [] ∨ o.closeErr ≠ none)
-    theorem diag_has_pos : run fs main = .done o → ∀ d ∈ o.diags, d.file ≠ [] ∧ 1 ≤ d.line ∧ 1 ≤ d.col
-Proved: `run_outcome_partial` = the first conjunct without `assembleOk`, and the second with the extra
-disjunct "`finalize` stopped at a fatal task".  Missing for the full statement: the lemma that every `Err` result
-of a statement / task is accompanied by a new entry of `errors` (true of every branch of the model by
-inspection — each `.err` is returned next to a `push`/`pushIn` — but not yet carried through the 40 functions);
-`diag_has_pos` additionally needs `1 ≤ line, col` for every token and end position of `Lex`/`Parse` and the
-hypotheses `main ≠ []`, `fs [] = none`.  Both are checked on the implementation for every generated project by
-the C06 oracle (failure without a diagnostic / diagnostic without a position) and on the model by `model.asm.run`.
--/
-
-/-- C06.run_outcome (partial)  Success means that no diagnostic was recorded; a failure shows as a close error,
-a recorded diagnostic, or `finalize` returning false. -/
-theorem run_outcome_partial (fs : Bytes → Option Bytes) (main : Bytes) (o : Outcome) (h : run fs main = .done o) :
-    (o.success = true → o.diags = [] ∧ o.closeErr = none) ∧
-    (o.success = false → o.closeErr ≠ none ∨ o.finalize = false) := by
+/-- C06.run_outcome  The shape of every outcome: success (close succeeded and `finalize` returned true) means that
+`assemble` returned `Ok` and that not a single diagnostic was recorded; a failure always shows as at least one
+recorded diagnostic or as the error of `close_segment`.  (Lemmas/AsmLoud.lean: diagnostics are only ever added,
+and every `Err` result of a statement, task, file or loop comes with a new diagnostic.) -/
+theorem run_outcome (fs : Bytes → Option Bytes) (main : Bytes) (o : Outcome) (h : run fs main = .done o) :
+    (o.success = true → o.diags = [] ∧ o.assembleOk = true) ∧
+    (o.success = false → o.diags ≠ [] ∨ o.closeErr ≠ none) := by
   unfold run runWith at h
   split at h
   · cases h
   · split at h
-    · split at h
+    · rename_i st res ha
+      have wa := assembleFile_grew fs encoder maxDepth _ _ _ _ _ _ ha
+      simp only [Grew, St.init, List.length_nil, Nat.zero_add] at wa
+      split at h
       · cases h
         simp [Outcome.success]
       · cases h
       · split at h
         · rename_i st' fin hf
           cases h
-          unfold finalize at hf
-          split at hf
-          · rename_i st2 abort _
-            cases hf
-            refine ⟨fun hs => ?_, fun hs => ?_⟩
-            · simp only [Outcome.success, Option.isNone_none, Bool.true_and, Bool.not_eq_true', Bool.or_eq_false_iff] at hs
-              have : st'.errors = [] := by
-                have := hs.2
-                simpa [St.hasErrored] using this
-              simp [this]
-            · right
-              simpa [Outcome.success] using hs
-          · cases hf
+          obtain ⟨hm, hfin⟩ := finalize_grew hf
+          simp only at hm
+          refine ⟨fun hs => ?_, fun hs => ?_⟩
+          · have hf' : fin = true := by simpa [Outcome.success] using hs
+            have he := hfin.mp hf'
+            rw [he] at hm
+            simp only [List.length_nil, Nat.le_zero_eq] at hm
+            refine ⟨by simp [he], ?_⟩
+            cases res with
+            | ok => simp
+            | err l => simp at wa; omega
+          · left
+            have hf' : fin = false := by simpa [Outcome.success] using hs
+            intro e
+            have : st'.errors = [] := by simpa using e
+            rw [hfin.mpr this] at hf'
+            cases hf'
         all_goals cases h
     all_goals cases h
+
+/-
+FULL-STRENGTH STATEMENT (kept visible):
+    theorem diag_has_pos : run fs main = .done o → ∀ d ∈ o.diags, d.file ≠ [] ∧ 1 ≤ d.line ∧ 1 ≤ d.col
+-/
 
 /-- non-vacuity: the panic outcome is a real outcome of the model's primitives outside the invariant
 ("no local scope"), the initial state satisfies the invariant, and the main file need not exist -/
